@@ -55,6 +55,13 @@ def build_daemon(ctx, name="munged", san="address", vclock=True, extra_defs=(), 
     return exe, ""
 
 
+VTIMER_WRAPS = ["clock_gettime", "pthread_cond_timedwait"]
+
+
+def vtimer_src():
+    return [os.path.join(vlib.HARNESS, "vtimer.c")]
+
+
 class Daemon:
     def __init__(self, ctx, exe, tag="d", key=None, nthreads=2, max_ttl=None, extra=(), env=None, clock=None, nss_db=None):
         self.ctx = ctx
@@ -70,9 +77,10 @@ class Daemon:
         os.chmod(self.keyfile, 0o600)
         self.clockfile = os.path.join(self.dir, "clock")
         with open(self.clockfile, "wb") as f:
-            f.write(struct.pack("<q", clock if clock is not None else 0))
+            f.write(struct.pack("<qq", clock if clock is not None else 0, 0))
         self._clk = open(self.clockfile, "r+b")
-        self._mm = mmap.mmap(self._clk.fileno(), 8)
+        self._mm = mmap.mmap(self._clk.fileno(), 16)
+        self._toff = 0
         self.asan_log = os.path.join(self.dir, "asan")
         self.logfile = os.path.join(self.dir, "log")
         self.args = [exe, "-F", "-S", self.sock, "--key-file=" + self.keyfile,
@@ -113,6 +121,14 @@ class Daemon:
     def set_clock(self, t):
         """t = 0 means: real time"""
         self._mm[0:8] = struct.pack("<q", t)
+
+    def advance_timers(self, ms, settle=0.25):
+        """daemons built with VTIMER_SRC/VTIMER_WRAPS and started with --group-update-time=0: every pending timer sees the
+        clock ms further on; the sleeping timer thread is poked by SIGHUP (gids_update queues a timer and signals it)"""
+        self._toff += ms
+        self._mm[8:16] = struct.pack("<q", self._toff)
+        self.p.send_signal(signal.SIGHUP)
+        time.sleep(settle)
 
     def start(self, wait=10.0):
         # stderr goes to a file: a pipe nobody drains fills up after ~2000 log lines and blocks the daemon
